@@ -792,12 +792,12 @@ class Evaluator:
             if not step.is_const() or step.const <= 0:
                 raise Unsupported(f"{self.func.qual}:{e.lineno}: comprehension over a range with step {step!r}")
             count = (stop - start) if step.const == 1 else floordiv(stop - start + Lin(step.const - 1), step)
-            if count.is_const() and start.is_const() and 0 <= count.const <= 16:
+            if count.is_const() and 0 <= count.const <= 16:
                 # a small constant range is unrolled: [f(i) for i in range(3)] = [f(0), f(1), f(2)]
                 out_u = []
                 for k_ in range(count.const):
                     sub_u = st.fork()
-                    sub_u.env[var] = Lin(start.const + k_ * step.const)
+                    sub_u.env[var] = start + Lin(k_ * step.const)
                     out_u.append(self.eval(e.elt, sub_u))
                     st.reads[:] = sub_u.reads
                     st.calls[:] = sub_u.calls
@@ -882,6 +882,19 @@ class Evaluator:
         dotted = self.repo.dotted(fn, self.mod)
         kw = {k.arg: k.value for k in e.keywords if k.arg}
         # ---- builtins on values
+        if dotted == "sum" and 1 <= len(e.args) <= 2 and not e.keywords:
+            # sum of a list / generator of integers whose elements are known: the sum of the elements
+            try:
+                items = self.eval(e.args[0], st)
+                if isinstance(items, STuple):
+                    items = list(items.items)
+                if isinstance(items, list) and all(isinstance(x, (Lin, int)) and not isinstance(x, bool) for x in items):
+                    total = self.as_lin(self.eval(e.args[1], st), e) if len(e.args) == 2 else Lin(0)
+                    for x in items:
+                        total = total + self.as_lin(x, e)
+                    return total
+            except Unsupported:
+                pass
         if dotted == "len" and len(e.args) == 1:
             v = self.eval(e.args[0], st)
             if isinstance(v, SBytes):
